@@ -205,9 +205,19 @@ def enc_op(op):
     return [len(body)] + body
 
 
-def impl_run(ops):
+_SUB = []
+
+
+def _sub():
+    if not _SUB:
+        from cpppo import dotdict
+        _SUB.append(type('config', (dotdict,), {}))
+    return _SUB[0]
+
+
+def impl_run(ops, cls=None):
     from cpppo import dotdict
-    d = dotdict()
+    d = (cls or dotdict)()
     outs = []
     for op in ops:
         t = op[0]
@@ -535,6 +545,13 @@ def run(ctx):
                 break
         if not skip and ifinal != mfinal:
             ndis += 1; first = first or dict(kind='final-tree', ops=[repr(o)[:100] for o in ops][-8:], impl=repr(ifinal)[:300], model=repr(mfinal)[:300])
+        # the same operations on a tree whose root is a dotdict SUBCLASS (as cpppo's own apidict is, as applications' config classes are)
+        o2, f2, _ = impl_run(ops, cls=_sub())
+        if (o2, f2) != (iouts, ifinal) and nbad < 6:
+            n = next((k for k, (a, b) in enumerate(zip(iouts, o2)) if a != b), len(ops))
+            nbad += 1
+            ctx.violation(dict(ops=[repr(o)[:120] for o in ops[:n + 1]][-8:], at=n, dotdict=repr(iouts[n:n + 1] or ifinal)[:300], subclass=repr(o2[n:n + 1] or f2)[:300]),
+                          'a tree rooted at a dotdict subclass answers differently from a plain dotdict')
         bad = spec_check(ops)
         if bad is not None:
             nbad += 1
